@@ -56,5 +56,48 @@ CommitCovered == IsKind("Commit") /\ NoPanic /\ "st" \in DOMAIN ev' /\ ~hist.imp
 Conf_Commit ==
    Clause("DRIFT", "StakingModelPredictsCommit", CommitCovered, BlockDiff(CommitS(st), st', StakeFields) = {},
           [at |-> Where, differs |-> BlockDiff(CommitS(st), st', StakeFields)])
-ConformanceStep == Conf_Code /\ Conf_State /\ Conf_Begin /\ Conf_End /\ Conf_Commit
+\* ---------------------------------------------------------------- pool trades and liquidity: the node's amounts are the ones Pools.tla computes
+\* (Pools.tla is what MCPools explores exhaustively.)  Covered: a single-hop trade in a pool that has no limit orders, commission paid in the base
+\* coin from a base-coin price table; adding / removing liquidity with the commission not converted through that pool.
+PL == INSTANCE Pools
+TradePools == PoolOf(st, CoinsArg[1], CoinsArg[2])
+NoOrdersIn(p) == \A o \in DOMAIN st.orders : st.orders[o].pool # p
+TradeCovered == /\ Delivered /\ Code = 0 /\ Tx.type \in {"SellSwapPool", "BuySwapPool"} /\ Tx.intact /\ "st" \in DOMAIN ev'
+                /\ Len(CoinsArg) = 2 /\ Tx.gasCoin = Base /\ st.priceCoin = Base
+                /\ Cardinality(TradePools) = 1 /\ \A p \in TradePools : NoOrdersIn(p) /\ p \in DOMAIN st'.pools
+Conf_Trade ==
+   Clause("DRIFT", "PoolModelPredictsTrade", TradeCovered,
+          \A p \in TradePools :
+             LET q == st.pools[p]  q2 == st'.pools[p]
+                 fwd == q.c0 = CoinsArg[1]
+                 rIn == IF fwd THEN q.r0 ELSE q.r1
+                 rOut == IF fwd THEN q.r1 ELSE q.r0
+                 t == IF Tx.type = "SellSwapPool" THEN PL!SellTrade(rIn, rOut, Arg("value")) ELSE PL!BuyTrade(rIn, rOut, Arg("value"))
+             IN /\ t.ok
+                /\ (IF fwd THEN q2.r0 ELSE q2.r1) = rIn ++ t.net
+                /\ (IF fwd THEN q2.r1 ELSE q2.r0) = rOut -- t.out
+                /\ Got(CoinsArg[2]) = t.out
+                /\ Spent(CoinsArg[1]) = t.pay,
+          [at |-> WhereTx, before |-> [p \in TradePools |-> st.pools[p]], after |-> [p \in TradePools |-> st'.pools[p]],
+           got |-> Got(CoinsArg[2]), spent |-> Spent(CoinsArg[1]), value |-> Arg("value")])
+LiqPools == PoolOf(st, Arg("c0"), Arg("c1"))
+LiqCovered == /\ Delivered /\ Code = 0 /\ Tx.type \in {"AddLiquidity", "RemoveLiquidity"} /\ Tx.intact /\ "st" \in DOMAIN ev' /\ ~FeeThroughPool
+              /\ Cardinality(LiqPools) = 1 /\ \A p \in LiqPools : p \in DOMAIN st'.pools
+Conf_Liquidity ==
+   Clause("DRIFT", "PoolModelPredictsLiquidity", LiqCovered,
+          \A p \in LiqPools :
+             LET q == st.pools[p]  q2 == st'.pools[p]  sup == LpVol(st, p)
+                 fwd == q.c0 = Arg("c0")
+                 ra == IF fwd THEN q.r0 ELSE q.r1        \* reserve of the coin the transaction names first
+                 rb == IF fwd THEN q.r1 ELSE q.r0
+                 ra2 == IF fwd THEN q2.r0 ELSE q2.r1
+                 rb2 == IF fwd THEN q2.r1 ELSE q2.r0
+             IN IF Tx.type = "AddLiquidity"
+                THEN LET m == PL!MintFor(ra, rb, sup, Arg("v0"))
+                     IN ra2 = ra ++ Arg("v0") /\ rb2 = rb ++ m.a1 /\ LpVol(st', p) = sup ++ m.liq
+                ELSE LET m == PL!AmountsFor(ra, rb, sup, Arg("liquidity"))
+                     IN ra2 = ra -- m.a0 /\ rb2 = rb -- m.a1 /\ LpVol(st', p) = sup -- Arg("liquidity"),
+          [at |-> WhereTx, before |-> [p \in LiqPools |-> st.pools[p]], after |-> [p \in LiqPools |-> st'.pools[p]],
+           supply |-> [p \in LiqPools |-> <<LpVol(st, p), LpVol(st', p)>>]])
+ConformanceStep == Conf_Code /\ Conf_State /\ Conf_Begin /\ Conf_End /\ Conf_Commit /\ Conf_Trade /\ Conf_Liquidity
 =============================================================================
